@@ -18,7 +18,7 @@ Lemma fref_tot_ref a : is_ref a = false -> is_ref (fref_tot a) = true.
 Proof. unfold fref_tot. destruct a; cbn [fref is_ref]; intros H; try discriminate H; reflexivity. Qed.
 
 (* Core annotations with Build's unwrap / is_ref / (totalised) fref satisfy every law C16 asks of a key family *)
-Theorem ty_key_laws : key_laws ty ty_eqb is_ref unwrap fref_tot.
+Theorem ty_key_laws : key_laws ty ty_eqb is_ref unwrap fref_tot names_ty.
 Proof. constructor.
   - exact ty_eqb_refl.
   - intros a b H. apply ty_eqb_eq in H. subst. apply ty_eqb_refl.
@@ -27,11 +27,12 @@ Proof. constructor.
   - intros a b H. apply ty_eqb_eq in H. subst. apply ty_eqb_refl.
   - intros a _. rewrite unwrap_idem. apply ty_eqb_refl.
   - exact fref_tot_ref.
+  - intros a b k H. apply ty_eqb_eq in H. subst. reflexivity.
 Qed.
 
 (* ---------------------------------------------------------------- states *)
 Lemma cfind_cset c k v k2 : cfind (cset c k v) k2 = if ty_eqb k2 k then Some v else cfind c k2.
-Proof. exact (find_set ty routine ty_eqb is_ref unwrap fref_tot ty_key_laws c k v k2). Qed.
+Proof. exact (find_set ty routine ty_eqb is_ref unwrap fref_tot names_ty ty_key_laws c k v k2). Qed.
 
 (* the dict a Build context denotes answers plain membership like find_key *)
 Lemma cfind_state_of cx k : cfind (state_of cx) k = find_key k cx.
@@ -42,7 +43,27 @@ Lemma keys_wf_no_dummy cx k : keys_wf cx = true -> fref k = None -> find_key (TR
 Proof. unfold keys_wf. induction cx as [|[k' r] rest IH]; cbn [forallb find_key fst]; intros Hwf Hf; [reflexivity|].
   apply andb_true_iff in Hwf. destruct Hwf as [H1 H2].
   destruct (ty_eqb (TRefTo k) k') eqn:Ek; [|exact (IH H2 Hf)].
-  apply ty_eqb_eq in Ek. subst k'. cbn [ref_wf] in H1. rewrite Hf in H1. discriminate H1. Qed.
+  apply ty_eqb_eq in Ek. subst k'. unfold ref_wf in H1. cbn [is_ref evaluate] in H1. rewrite Hf in H1. discriminate H1. Qed.
+
+Lemma find_key_wf cx r v : keys_wf cx = true -> find_key r cx = Some v -> ref_wf r = true.
+Proof. unfold keys_wf. induction cx as [|[k' w] rest IH]; cbn [forallb find_key fst]; intros Hwf H; [discriminate H|].
+  apply andb_true_iff in Hwf. destruct Hwf as [H1 H2].
+  destruct (ty_eqb r k') eqn:Ek; [|exact (IH H2 H)]. apply ty_eqb_eq in Ek. subst k'. exact H1. Qed.
+
+(* the scan of the real __missing__ adds nothing on a module-blind context: a stored reference that evaluates to k
+   IS forwardref(k), which has just been missed *)
+Lemma no_foreign (S : cst) cx k :
+  (forall k', cfind S k' = find_key k' cx) -> keys_wf cx = true -> find_key (fref_tot k) cx = None ->
+  Ctx.first_named ty routine is_ref names_ty S k = None.
+Proof. intros Hag Hwf Hmiss.
+  destruct (Ctx.first_named ty routine is_ref names_ty S k) as [v|] eqn:E; [|reflexivity]. exfalso.
+  destruct (first_named_in ty routine is_ref names_ty S k v E) as (r & Hin & Hp).
+  apply andb_true_iff in Hp. destruct Hp as [Hr Hn]. unfold names_ty in Hn. apply ty_eqb_eq in Hn.
+  destruct (find_in ty routine ty_eqb is_ref unwrap fref_tot names_ty ty_key_laws S r v Hin) as (w & Hw).
+  change (Ctx.find ty routine ty_eqb) with cfind in Hw. rewrite Hag in Hw.
+  pose proof (find_key_wf cx r w Hwf Hw) as Hrw. unfold ref_wf in Hrw. rewrite Hr, Hn in Hrw.
+  unfold fref_tot in Hmiss. destruct (fref k) as [rf|]; [|discriminate Hrw].
+  apply ty_eqb_eq in Hrw. subst rf. rewrite Hw in Hmiss. discriminate Hmiss. Qed.
 
 (* Build's getitem is C16's specification lookup on any dict that agrees with the context on plain membership *)
 Lemma getitem_is_spec_lookup (S : cst) cx k :
@@ -54,9 +75,11 @@ Proof.
   destruct (find_key k cx) as [r|]; [reflexivity|].
   destruct (is_ref k); [reflexivity|].
   destruct (find_key (unwrap k) cx) as [r|]; [reflexivity|].
-  unfold fref_tot. destruct (fref k) as [rf|] eqn:Hf.
-  - destruct (find_key rf cx); reflexivity.
-  - rewrite (keys_wf_no_dummy cx k Hwf Hf). reflexivity.
+  assert (Hscan : find_key (fref_tot k) cx = None -> Ctx.first_named ty routine is_ref names_ty S k = None)
+    by (apply no_foreign; assumption).
+  unfold fref_tot in *. destruct (fref k) as [rf|] eqn:Hf.
+  - destruct (find_key rf cx); [reflexivity|]. rewrite (Hscan eq_refl). reflexivity.
+  - rewrite (keys_wf_no_dummy cx k Hwf Hf) in *. rewrite (Hscan eq_refl). reflexivity.
 Qed.
 
 Theorem getitem_spec cx k : keys_wf cx = true ->
@@ -78,36 +101,36 @@ Qed.
 
 Lemma ops_ok_snoc_lookup ops l : is_lookup ty routine l = true -> cops_ok [] ops = true -> cops_ok [] (ops ++ [l]) = true.
 Proof. intros Hl Hok. unfold cops_ok.
-  rewrite (ops_ok_app ty routine ty_eqb is_ref unwrap fref_tot). unfold cops_ok in Hok. rewrite Hok. cbn [andb ops_ok].
+  rewrite (ops_ok_app ty routine ty_eqb is_ref unwrap fref_tot names_ty). unfold cops_ok in Hok. rewrite Hok. cbn [andb ops_ok].
   destruct l; try discriminate Hl; reflexivity. Qed.
 
 (* The real class (C16's machine, memo writes included) after any allowed history answers context[k] exactly as
    Build's getitem does on the context holding the history's insertions. *)
 Theorem run_item_is_getitem fuel ops k :
-  2 <= fuel -> cops_ok [] ops = true -> keys_wf (ctx_of ops []) = true ->
+  1 <= fuel -> cops_ok [] ops = true -> keys_wf (ctx_of ops []) = true ->
   crun fuel [] (ops ++ [OItem k]) = cspec_run [] ops ++ [out_item (getitem (ctx_of ops []) k)].
 Proof.
   intros Hf Hok Hwf. unfold crun.
-  rewrite (refines ty routine ty_eqb is_ref unwrap fref_tot ty_key_laws fuel (ops ++ [OItem k]) Hf
+  rewrite (refines ty routine ty_eqb is_ref unwrap fref_tot names_ty ty_key_laws fuel (ops ++ [OItem k]) Hf
              (ops_ok_snoc_lookup ops (OItem k) eq_refl Hok)).
-  rewrite (spec_run_app ty routine ty_eqb is_ref unwrap fref_tot). unfold cspec_run. f_equal.
+  rewrite (spec_run_app ty routine ty_eqb is_ref unwrap fref_tot names_ty). unfold cspec_run. f_equal.
   cbn [spec_run spec_step]. f_equal.
   rewrite (getitem_is_spec_lookup (cspec_final [] ops) (ctx_of ops []) k); [|intros k'; apply spec_final_agrees; reflexivity|exact Hwf].
-  unfold cspec_lookup, cspec_final. destruct (spec_lookup ty routine ty_eqb is_ref unwrap fref_tot _ k); reflexivity.
+  unfold cspec_lookup, cspec_final. destruct (spec_lookup ty routine ty_eqb is_ref unwrap fref_tot names_ty _ k); reflexivity.
 Qed.
 
 (* ... and context.get(k, d) as Build's ctx_get with the default *)
 Theorem run_get_is_ctx_get fuel ops k d :
-  2 <= fuel -> cops_ok [] ops = true -> keys_wf (ctx_of ops []) = true ->
+  1 <= fuel -> cops_ok [] ops = true -> keys_wf (ctx_of ops []) = true ->
   crun fuel [] (ops ++ [OGet k d]) = cspec_run [] ops ++ [out_get (ctx_get (ctx_of ops []) k) d].
 Proof.
   intros Hf Hok Hwf. unfold crun.
-  rewrite (refines ty routine ty_eqb is_ref unwrap fref_tot ty_key_laws fuel (ops ++ [OGet k d]) Hf
+  rewrite (refines ty routine ty_eqb is_ref unwrap fref_tot names_ty ty_key_laws fuel (ops ++ [OGet k d]) Hf
              (ops_ok_snoc_lookup ops (OGet k d) eq_refl Hok)).
-  rewrite (spec_run_app ty routine ty_eqb is_ref unwrap fref_tot). unfold cspec_run. f_equal.
+  rewrite (spec_run_app ty routine ty_eqb is_ref unwrap fref_tot names_ty). unfold cspec_run. f_equal.
   cbn [spec_run spec_step]. f_equal. unfold ctx_get, out_get.
   rewrite (getitem_is_spec_lookup (cspec_final [] ops) (ctx_of ops []) k); [|intros k'; apply spec_final_agrees; reflexivity|exact Hwf].
-  unfold cspec_lookup, cspec_final. destruct (spec_lookup ty routine ty_eqb is_ref unwrap fref_tot _ k); reflexivity.
+  unfold cspec_lookup, cspec_final. destruct (spec_lookup ty routine ty_eqb is_ref unwrap fref_tot names_ty _ k); reflexivity.
 Qed.
 
 (* the two directions the brief asks for, for a context given as a list of insertions *)
@@ -120,7 +143,7 @@ Lemma last_app_single {A} (l : list A) x d : last (l ++ [x]) d = x.
 Proof. induction l as [|a l IH]; [reflexivity|]. cbn [app]. destruct (l ++ [x]) eqn:E; [destruct l; discriminate E|]. exact IH. Qed.
 
 Theorem getitem_iff_run fuel cx k r :
-  2 <= fuel -> cops_ok [] (sets_of cx) = true -> keys_wf cx = true ->
+  1 <= fuel -> cops_ok [] (sets_of cx) = true -> keys_wf cx = true ->
   (getitem cx k = Core.Ok r <-> last (crun fuel [] (sets_of cx ++ [OItem k])) OOther = OVal r) /\
   ((exists e, getitem cx k = Core.Raise e) <-> last (crun fuel [] (sets_of cx ++ [OItem k])) OOther = OKeyError).
 Proof.
@@ -180,13 +203,20 @@ Proof.
     + destruct (is_ref k); cbn [fst snd]; [split; [exact Hok|intros v' H; discriminate H]|].
       destruct (Ctx.contains ty routine ty_eqb c (unwrap k)).
       * destruct (IH c (unwrap k) Hok) as [H1 H2].
-        destruct (Ctx.getitem ty routine ty_eqb is_ref unwrap fref_tot f c (unwrap k)) as [[v| |] c1]; cbn [fst snd] in *.
+        destruct (Ctx.getitem ty routine ty_eqb is_ref unwrap fref_tot names_ty f c (unwrap k)) as [[v| |] c1]; cbn [fst snd] in *.
         -- assert (Hr : routes v k) by (apply (routes_norm_eq E dir noop_leaf v (unwrap k) k); [apply norm_unwrap|apply H2; reflexivity]).
            split; [apply cset_ok; assumption|]. intros v' H. injection H as <-. exact Hr.
         -- split; [exact H1|intros v' H; discriminate H].
         -- split; [exact H1|intros v' H; discriminate H].
-      * destruct (IH c (fref_tot k) Hok) as [H1 H2]. split; [exact H1|].
-        intros v' H. apply (routes_norm_eq E dir noop_leaf v' (fref_tot k) k); [apply norm_fref_tot|apply H2; exact H].
+      * destruct (Ctx.contains ty routine ty_eqb c (fref_tot k)).
+        -- destruct (IH c (fref_tot k) Hok) as [H1 H2]. split; [exact H1|].
+           intros v' H. apply (routes_norm_eq E dir noop_leaf v' (fref_tot k) k); [apply norm_fref_tot|apply H2; exact H].
+        -- destruct (Ctx.scan ty routine is_ref names_ty c k) as [o|] eqn:Es; cbn [fst snd];
+             [|split; [exact Hok|intros v' H; discriminate H]].
+           destruct (IH c o Hok) as [H1 H2]. split; [exact H1|].
+           pose proof (scan_some ty routine is_ref names_ty c k o Es) as Hp.
+           apply andb_true_iff in Hp. destruct Hp as [_ Hn]. unfold names_ty in Hn. apply ty_eqb_eq in Hn.
+           intros v' H. apply (routes_norm_eq E dir noop_leaf v' o k); [rewrite <- Hn; symmetry; apply norm_evaluate|apply H2; exact H].
 Qed.
 
 (* outputs of a history: every value that context[k] shows routes k; context.get(k, d) shows such a value or d *)
@@ -208,12 +238,12 @@ Proof.
   destruct o as [k v|k|k d|k]; cbn [Ctx.step].
   - cbn [outs_route]. apply IH; [|exact Hset']. apply cset_ok; [exact Hok|apply Hset; left; reflexivity].
   - destruct (cgetitem_routes fuel c k Hok) as [H1 H2]. unfold cgetitem in H1, H2.
-    destruct (Ctx.getitem ty routine ty_eqb is_ref unwrap fref_tot fuel c k) as [[v| |] c1]; cbn [fst snd out_of_res outs_route] in *.
+    destruct (Ctx.getitem ty routine ty_eqb is_ref unwrap fref_tot names_ty fuel c k) as [[v| |] c1]; cbn [fst snd out_of_res outs_route] in *.
     + split; [apply H2; reflexivity|apply IH; assumption].
     + apply IH; assumption.
     + apply IH; assumption.
   - destruct (cgetitem_routes fuel c k Hok) as [H1 H2]. unfold cgetitem in H1, H2. unfold Ctx.get.
-    destruct (Ctx.getitem ty routine ty_eqb is_ref unwrap fref_tot fuel c k) as [[v| |] c1]; cbn [fst snd out_of_res outs_route] in *.
+    destruct (Ctx.getitem ty routine ty_eqb is_ref unwrap fref_tot names_ty fuel c k) as [[v| |] c1]; cbn [fst snd out_of_res outs_route] in *.
     + split; [left; apply H2; reflexivity|apply IH; assumption].
     + split; [right; reflexivity|apply IH; assumption].
     + apply IH; assumption.
